@@ -620,8 +620,20 @@ def extra_stack(ctx, pid, viol, stats):
 
 # `languages` (lang.c) is an array of pointers that is not const-qualified itself; like polyseed_mul2_table it is never written
 WRITABLE_ALLOWED = {'polyseed_deps', 'reserved_features', 'polyseed_mul2_table', 'languages'}
-UNDEF_ALLOWED = {'time', 'malloc', 'free', 'memcpy', 'memset', 'memcmp', 'strcmp', 'strlen', 'bsearch', '__assert_fail', '__stack_chk_fail',
-                 '_GLOBAL_OFFSET_TABLE_', 'memmove'}
+# imports that would be a second source of randomness, time, memory or I/O next to the injected ones
+UNDEF_DENIED = {'rand', 'srand', 'random', 'srandom', 'rand_r', 'drand48', 'lrand48', 'mrand48', 'getrandom', 'getentropy', 'arc4random', 'arc4random_buf',
+                'arc4random_uniform', 'clock_gettime', 'gettimeofday', 'clock', 'ftime', 'timespec_get', 'localtime', 'gmtime', 'open', 'fopen', 'read', 'fread',
+                'calloc', 'realloc', 'posix_memalign', 'aligned_alloc', 'valloc', 'memalign', 'strdup', 'strndup', 'getenv', 'pthread_create', 'explicit_bzero', 'memset_s'}
+# the three NULL fall-backs and pure helpers of libc / the compiler runtime
+UNDEF_ALLOWED = {'time', 'malloc', 'free', 'bsearch', 'qsort', 'abort', '__assert_fail', '__stack_chk_fail', '_GLOBAL_OFFSET_TABLE_'}
+
+
+def undef_class(name):
+    if name in UNDEF_DENIED:
+        return 'denied'
+    if name in UNDEF_ALLOWED or name.startswith(('mem', 'str', '__mem', '__str')):
+        return 'allowed'
+    return 'unknown'
 
 
 def symbol_inventory(ctx, viol, st, want_writable=True, want_undef=True):
@@ -663,9 +675,14 @@ def symbol_inventory(ctx, viol, st, want_writable=True, want_undef=True):
             viol.append(Violation('oracle', 'writable-symbol:' + w, 'the library objects contain writable static storage "%s" besides the injected-dependency table, the feature mask and the GF table: shared mutable state not covered by the model' % w,
                                   script=['objdump -t <objects built from the tree>', w], suite='syms', found_input=True))
     if want_undef:
-        for u in sorted(undef - UNDEF_ALLOWED):
-            viol.append(Violation('oracle', 'undefined-symbol:' + u, 'the library objects import "%s": a dependency that is not injected (only time/malloc/free as NULL fall-backs and memory/string helpers are expected)' % u,
-                                  script=['nm -u <objects built from the tree>', u], suite='syms', found_input=True))
+        for u in sorted(undef):
+            c = undef_class(u)
+            if c == 'denied':
+                viol.append(Violation('oracle', 'undefined-symbol:' + u, 'the library objects import "%s": a source of randomness, time, memory or I/O that is not injected' % u,
+                                      script=['nm -u <objects built from the tree>', u], suite='syms', found_input=True))
+            elif c == 'unknown':
+                viol.append(Violation('correspondence', 'undefined-symbol:' + u, 'the library objects import "%s", which is neither a known pure helper nor one of the three documented NULL fall-backs (time, malloc, free): the model does not cover it' % u,
+                                      script=['nm -u <objects built from the tree>', u], suite='syms'))
     return writable, undef
 
 
